@@ -153,6 +153,46 @@ def gen_lut(rng, uid, stream='N6'):
   else: case['body'] = [f's.out @= s.a if s.a[0] else {E}']
   return case
 
+def gen_intlut(rng, uid):
+  """a 1-D list of plain Python ints (same or mixed minimal widths; the first element the narrowest, the widest, or
+  neither) read through a signal index, a loop-variable index or a constant index expression the generation pass
+  does not fold, in a context as wide as element 0 / as the widest element / in between.  A list of ints of
+  different widths is rejected at RTLIR conversion by the clean code."""
+  n = rng.choice([2, 3, 4])
+  r = rng.random()
+  if r < 0.45:     # first element the narrowest
+    w0 = rng.choice([1, 1, 2, 3])
+    vals = [rng.randint(1 << (w0 - 1), (1 << w0) - 1) if w0 > 1 else rng.randint(0, 1)]
+    vals += [rng.randint(1 << w0, (1 << (w0 + rng.randint(1, 3))) - 1) if rng.random() < 0.7 else rng.randint(0, (1 << w0) - 1) for _ in range(n - 1)]
+    if max(vals[1:]) < (1 << w0): vals[-1] = (1 << w0) + 1
+  elif r < 0.7:    # all of the same minimal width
+    w0 = rng.choice([1, 2, 3, 4])
+    vals = [rng.randint(1 << (w0 - 1), (1 << w0) - 1) if w0 > 1 else rng.randint(0, 1) for _ in range(n)]
+  else:            # first element the widest
+    w0 = rng.choice([2, 3, 4])
+    vals = [rng.randint(1 << (w0 - 1), (1 << w0) - 1)] + [rng.randint(0, (1 << (w0 - 1)) - 1) for _ in range(n - 1)]
+  wmax = max(1, max(vals).bit_length())
+  w0 = max(1, vals[0].bit_length())
+  cw = rng.choice([w0, w0, wmax, max(w0, wmax - 1), wmax + 2])
+  iw = 1 if n <= 2 else (n - 1).bit_length()
+  case = {'uid': uid, 'stream': 'intlut', 'types': [], 'widths': [cw, iw],
+          'ports': [['sel', 'in', f'Bits{iw}'], ['a', 'in', f'Bits{cw}'], ['en', 'in', f'Bits{cw}'], ['out', 'out', f'Bits{cw}'],
+                    ['o1', 'out', 'Bits1']],
+          'attrs': ['s.lut = [ ' + ', '.join(str(v) for v in vals) + ' ]'], 'sweep': 'sel', 'nlut': n}
+  form = rng.random()
+  if form < 0.4: E = 's.lut[ s.sel ]'
+  elif form < 0.7: E = 's.lut[ i ]'
+  else: E = f's.lut[ {rng.choice(["0+1", "2-1", "1*1", "0+0"] + (["1+1"] if n > 2 else []))} ]'
+  k = rng.random()
+  if k < 0.3: stmt = f's.out @= {E}'
+  elif k < 0.6: stmt = f's.out @= s.a {rng.choice(["+", "&", "|", "^"])} {E}'
+  elif k < 0.75: stmt = f's.out @= s.out | ( {E} & s.en )'
+  elif k < 0.9: stmt = f's.o1 @= s.a == {E}'
+  else: stmt = f's.out @= s.a if s.a[0] else {E}'
+  if 'lut[ i ]' in E: case['body'] = ['s.out @= 0', f'for i in range( {n} ):', '  ' + stmt]
+  else: case['body'] = [stmt]
+  return case
+
 def corpus():
   P = ['SP', [['x', 'Bits8'], ['y', 'Bits16']]]
   N = ['SN', [['p', 'SP'], ['v', ['list', 'Bits4', 2]]]]
@@ -177,6 +217,12 @@ def corpus():
   u += 1; cs.append(mk(u, [['in_', 'in', 'Bits8'], ['out', 'out', 'Bits16']], ['s.out @= zext( s.in_, 16 ) + s.lut[ 0+1 ]'], lut, 'N6'))
   u += 1; cs.append(mk(u, [['in_', 'in', 'Bits8'], ['out', 'out', 'Bits16']], ['s.out @= zext( s.in_, 16 ) + s.lut[ 1 ]'], lut, 'lutctl'))
   u += 1; cs.append(mk(u, [['in_', 'in', 'Bits8'], ['out', 'out', 'Bits8']], ['s.out @= s.in_ + s.lut[ 0+1 ]'], lut, 'lutctl'))
+  il = ['s.lut = [ 1, 6, 3 ]']
+  u += 1; c = mk(u, [['sel', 'in', 'Bits2'], ['out', 'out', 'Bits1']], ['s.out @= s.lut[ s.sel ]'], il, 'intlut'); c['sweep'] = 'sel'; cs.append(c)
+  u += 1; cs.append(mk(u, [['en', 'in', 'Bits1'], ['out', 'out', 'Bits1']],
+                       ['s.out @= 0', 'for i in range( 3 ):', '  s.out @= s.out | ( s.lut[ i ] & s.en )'], il, 'intlut'))
+  u += 1; cs.append(mk(u, [['in_', 'in', 'Bits2'], ['out', 'out', 'Bits2']], ['s.out @= s.in_ + s.lut[ 0+1 ]'], il, 'intlut'))
+  u += 1; c = mk(u, [['sel', 'in', 'Bits2'], ['out', 'out', 'Bits3']], ['s.out @= s.lut[ s.sel ]'], ['s.lut = [ 5, 6, 4 ]'], 'intlut'); c['sweep'] = 'sel'; cs.append(c)
   return cs
 
 # ------------------------------------------------------------------ oracle
